@@ -59,6 +59,8 @@ type G struct {
 	waitFn   func() bool // non-nil: blocked until it returns true
 	sleeping bool
 	yielding bool
+	quiescing bool // vrt_Quiesce: runs only when nothing else can run, never a deviation target
+	lastEv   int  // index of this goroutine's latest event in the schedule trace
 	done     bool
 	depth    int
 	crash    *goPanic
@@ -80,6 +82,7 @@ type violation struct {
 	Inputs  []inputRec
 	Classes map[string]*Term
 	Choices []int64
+	Sched   []schedEv
 }
 
 type Exec struct {
@@ -135,6 +138,12 @@ type Exec struct {
 	unaryBy       map[string][]*Term
 	vsets         map[string]*byteSet
 	entangled     map[string]bool
+
+	// schedule mode (vrt_Sched): deviation-bounded exploration of goroutine schedules
+	schedOn     bool
+	schedBudget int
+	schedDev    int
+	schedTrace  []schedEv
 }
 
 type obsRec struct {
@@ -515,43 +524,51 @@ func (ex *Exec) runnable(g *G) bool {
 	return true
 }
 
-// yieldTo picks the next goroutine to run. Called by the current goroutine when it blocks,
-// yields or finishes.
-func (ex *Exec) reschedule() {
-	me := ex.cur
-	var next *G
-	// prefer non-yielding goroutines in creation order, starting after the main goroutine
+// schedEv is one visible operation in the schedule trace (schedule mode only).
+type schedEv struct {
+	G      int    `json:"g"`
+	Kind   string `json:"kind"`
+	Blocks bool   `json:"blocks,omitempty"`
+	Sel    *int   `json:"sel,omitempty"` // select: index of the communication clause taken (-1: default)
+}
+
+// schedOrder lists the goroutines that can run now in the default scheduler's order of preference:
+// non-yielding ones in creation order (the current one last among them), then yielding ones, then -
+// only when nothing else can run - quiescing ones.
+func (ex *Exec) schedOrder(me *G) []*G {
+	var a, y, q []*G
 	for _, g := range ex.gs {
-		if g != me && !g.yielding && ex.runnable(g) {
-			next = g
-			break
+		if g == me || g.done || !ex.runnable(g) {
+			continue
+		}
+		switch {
+		case g.quiescing:
+			q = append(q, g)
+		case g.yielding:
+			y = append(y, g)
+		default:
+			a = append(a, g)
 		}
 	}
-	if next == nil && !me.done && !me.yielding && ex.runnable(me) {
-		return
-	}
-	if next == nil {
-		for _, g := range ex.gs {
-			if g.yielding && !g.done {
-				next = g
-				break
-			}
+	if !me.done && ex.runnable(me) {
+		switch {
+		case me.quiescing:
+			q = append(q, me)
+		case me.yielding:
+			y = append(y, me)
+		default:
+			a = append(a, me)
 		}
 	}
-	if next == nil {
-		if me.done {
-			// everything finished or blocked, and the main goroutine is among the blocked
-			ex.dead = true
-			ex.inconclHint("deadlock: all goroutines blocked")
-			ex.main.resume <- false
-			return
-		}
-		ex.end("deadlock", "all goroutines blocked")
+	r := append(a, y...)
+	if len(r) == 0 {
+		r = q
 	}
-	if next == me {
-		me.yielding = false
-		return
-	}
+	return r
+}
+
+// switchTo hands the token to next and parks the current goroutine until it is resumed.
+func (ex *Exec) switchTo(me, next *G) {
 	ex.cur = next
 	next.yielding = false
 	next.resume <- true
@@ -565,6 +582,75 @@ func (ex *Exec) reschedule() {
 	ex.cur = me
 }
 
+// reschedule picks the next goroutine to run. Called by the current goroutine when it blocks,
+// yields or finishes. In schedule mode a choice other than the default one costs one deviation.
+func (ex *Exec) reschedule() {
+	me := ex.cur
+	order := ex.schedOrder(me)
+	if len(order) == 0 {
+		if me.done {
+			// everything finished or blocked, and the main goroutine is among the blocked
+			ex.dead = true
+			ex.inconclHint("deadlock: all goroutines blocked")
+			ex.main.resume <- false
+			return
+		}
+		ex.end("deadlock", "all goroutines blocked")
+	}
+	next := order[0]
+	if ex.schedOn && ex.schedBudget > 0 && len(order) > 1 && !order[0].quiescing {
+		vals := make([]int64, len(order))
+		for k := range order {
+			vals[k] = int64(k)
+		}
+		if c := ex.decideVals(vals); c > 0 {
+			ex.schedBudget--
+			ex.schedDev++
+			next = order[c]
+		}
+	}
+	if next == me {
+		me.yielding = false
+		return
+	}
+	ex.switchTo(me, next)
+}
+
+// schedPoint is called before every visible operation (channel operation, close, go statement,
+// socket operation, sleep, harness environment action). In schedule mode, while deviations remain,
+// the executor forks here over "the current goroutine goes on" and "another runnable goroutine runs
+// first"; the operation is then appended to the schedule trace.
+func (ex *Exec) schedPoint(kind string) {
+	if !ex.schedOn {
+		return
+	}
+	if ex.inMerge {
+		panic(mergeBail{"visible operation"})
+	}
+	me := ex.cur
+	if ex.schedBudget > 0 {
+		var cands []*G
+		for _, g := range ex.gs {
+			if g != me && !g.done && !g.quiescing && ex.runnable(g) {
+				cands = append(cands, g)
+			}
+		}
+		if len(cands) > 0 {
+			vals := make([]int64, len(cands)+1)
+			for k := range vals {
+				vals[k] = int64(k)
+			}
+			if c := ex.decideVals(vals); c > 0 {
+				ex.schedBudget--
+				ex.schedDev++
+				ex.switchTo(me, cands[c-1])
+			}
+		}
+	}
+	ex.schedTrace = append(ex.schedTrace, schedEv{G: me.id, Kind: kind})
+	me.lastEv = len(ex.schedTrace) - 1
+}
+
 func (ex *Exec) inconclHint(s string) {
 	if ex.inconcl == "" {
 		ex.inconcl = s
@@ -576,12 +662,16 @@ func (ex *Exec) blockUntil(f func() bool) {
 		return
 	}
 	g := ex.cur
+	if ex.schedOn && g.lastEv < len(ex.schedTrace) && ex.schedTrace[g.lastEv].G == g.id {
+		ex.schedTrace[g.lastEv].Blocks = true
+	}
 	g.waitFn = f
 	ex.reschedule()
 	g.waitFn = nil
 }
 
 func (ex *Exec) spawn(fn Value, args []Value, call *ssa.CallCommon) {
+	ex.schedPoint("go")
 	g := &G{id: len(ex.gs), resume: make(chan bool, 1)}
 	ex.gs = append(ex.gs, g)
 	go func() {
@@ -2099,6 +2189,7 @@ func (ex *Exec) builtin(fr *Frame, b *ssa.Builtin, c *ssa.CallCommon, args []Val
 		}
 		return nil
 	case "close":
+		ex.schedPoint("close")
 		ch := args[0].(ChanV)
 		if ch.obj == nil {
 			ex.rtPanic("close of nil channel", "")
@@ -2179,6 +2270,7 @@ func (ex *Exec) recvTake(o *Obj, et types.Type) (Value, bool) {
 }
 
 func (ex *Exec) chanSend(ch ChanV, v Value) {
+	ex.schedPoint("send")
 	if ch.obj == nil {
 		ex.blockUntil(func() bool { return false })
 	}
@@ -2209,6 +2301,7 @@ func (ex *Exec) chanSend(ch ChanV, v Value) {
 }
 
 func (ex *Exec) chanRecv(ch ChanV, et types.Type) (Value, bool) {
+	ex.schedPoint("recv")
 	if ch.obj == nil {
 		ex.blockUntil(func() bool { return false })
 	}
@@ -2224,6 +2317,7 @@ func (ex *Exec) selectInstr(fr *Frame, i *ssa.Select) Value {
 		val Value
 		et  types.Type
 	}
+	ex.schedPoint("select")
 	states := make([]st, len(i.States))
 	for k, s := range i.States {
 		ch := ex.get(fr, s.Chan).(ChanV)
@@ -2308,6 +2402,10 @@ func (ex *Exec) selectInstr(fr *Frame, i *ssa.Select) Value {
 		} else {
 			delete(g.selDone, i)
 		}
+	}
+	if ex.schedOn && g.lastEv < len(ex.schedTrace) && ex.schedTrace[g.lastEv].G == g.id && ex.schedTrace[g.lastEv].Kind == "select" {
+		sel := idx
+		ex.schedTrace[g.lastEv].Sel = &sel
 	}
 	res := TupleV{ex.cint(int64(idx)), ex.ts.ff}
 	var recvVals []Value
